@@ -57,7 +57,7 @@ ASSUMPTIONS = [
     "BoxBehnken with fewer than 3 factors must raise RuntimeError (raise in the code, treated as documented rejection)",
 ]
 BOUND = {'quick': '2 shards x 850 Hypothesis cases', 'thorough': '8 shards x 4000 Hypothesis cases'}
-MIN_CLASS_FRACTION = {'judged': 0.75, 'mode_drv': 0.2, 'api_samp': 0.2, 'gen_ff': 0.1, 'gen_lhs': 0.1}
+MIN_CLASS_FRACTION = {'judged': 0.75, 'mode_drv': 0.2, 'api_samp': 0.15, 'gen_ff': 0.05, 'gen_lhs': 0.05}
 UNIT_TIMEOUT = {'quick': 1800, 'thorough': 14400}
 
 EPS = np.finfo(float).eps
